@@ -13,6 +13,8 @@ pub enum Policy {
     Uniform,
     Tactical,
     Reversible,
+    /// the real engine under a simulated clock (expiry poll drawn log-uniformly)
+    Engine,
 }
 
 pub struct Cfg {
@@ -49,13 +51,31 @@ fn draw_cfg(ctx: &mut Ctx) -> Cfg {
     let t = &mut ctx.tape;
     // generator share: constellations G3/G4/G5 get at least 40 %
     let gen = match ctx.mode {
-        Prop::C13 | Prop::C12 | Prop::C11 => *t.pick(&[1u32, 1, 2, 2, 7, 7, 8, 3, 4, 5, 0, 9]),
+        Prop::C12 => *t.pick(&[1u32, 2, 7, 7, 3, 4, 5, 0, 9, 10, 10, 10, 10, 10, 10]),
+        Prop::C13 | Prop::C11 => *t.pick(&[1u32, 1, 2, 2, 7, 7, 8, 3, 4, 5, 0, 9, 10]),
         Prop::C04 => *t.pick(&[0u32, 1, 8, 8, 2, 3, 4, 5, 7, 9]),
         _ => *t.pick(&[0u32, 1, 2, 3, 3, 3, 4, 4, 5, 5, 6, 7, 8, 9, 3, 4, 5, 2]),
     };
     let pol = |t: &mut crate::tape::Tape| *t.pick(&[Policy::Uniform, Policy::Tactical, Policy::Tactical, Policy::Reversible]);
-    let p0 = pol(t);
-    let p1 = pol(t);
+    let mut p0 = pol(t);
+    let mut p1 = pol(t);
+    // the engine as a player, in a fraction of the sessions (it is ~100x slower than the others)
+    let engine_share = match ctx.mode {
+        Prop::C07 | Prop::C11 | Prop::C12 | Prop::C13 => 6,
+        Prop::C15 | Prop::C17 => 0,
+        _ => 24,
+    };
+    if engine_share > 0 && t.choose(engine_share) == 1 {
+        if t.choose(2) == 0 {
+            p0 = Policy::Engine;
+        } else {
+            p1 = Policy::Engine;
+        }
+        if t.choose(3) == 0 {
+            p0 = Policy::Engine;
+            p1 = Policy::Engine;
+        }
+    }
     let mut w = [0u32; 8];
     for x in w.iter_mut() {
         *x = *t.pick(&[0u32, 1, 4, 16, 64]);
@@ -76,6 +96,7 @@ fn draw_cfg(ctx: &mut Ctx) -> Cfg {
         Prop::C11 | Prop::C12 | Prop::C13 => (*t.pick(&[0u32, 10]), 0, 0, *t.pick(&[2u32, 4, 8])),
         _ => (8, 8, 2, 4),
     };
+    let ply_limit = if p0 == Policy::Engine || p1 == Policy::Engine { ply_limit.min(40) } else { ply_limit };
     Cfg { gen, ply_limit, policy: [p0, p1], w, restart_in, corrupt_in, byz, hosted_in, m2_in: 16 }
 }
 
@@ -106,6 +127,11 @@ pub fn check_legals(ctx: &mut Ctx, s: &Session) -> Step<Vec<Mv>> {
     let ls = op(Op::Generate, || sut::legals_sorted(&s.board));
     ctx.stats.bump("positions");
     ctx.observe_u64(ls.len() as u64);
+    for m in &ls {
+        ctx.observe(&[m.from, m.to, m.promo]);
+    }
+    let z = op(Op::Hash, || s.board.zobrist());
+    ctx.observe_u64(z);
     let sample_m2 = ctx.tape.choose(16) == 0;
     if ls == l1 {
         if sample_m2 {
@@ -892,6 +918,18 @@ fn choose_move(ctx: &mut Ctx, s: &Session, cfg: &Cfg, l1: &[Mv]) -> Mv {
     let side = s.model.stm as usize;
     match cfg.policy[side] {
         Policy::Uniform => *ctx.tape.pick(l1),
+        Policy::Engine => {
+            let k = ctx.tape.log_uniform(1500) as u64;
+            let tf = chess_engine::ThreeFold::new();
+            let o = clock::search(&s.board, &tf, k, ctx.tape.choose(2) == 1);
+            ctx.stats.bump("policy.engine-moves");
+            ctx.stats.add("sim.clock-ticks", o.polls);
+            match o.mv {
+                // what the engine proposes is C11's business; here it is only a source of moves
+                Some(m) if l1.contains(&m) => m,
+                _ => *ctx.tape.pick(l1),
+            }
+        }
         Policy::Reversible => {
             if let Some(prev) = s.last_move[side] {
                 let undo = Mv::new(prev.to, prev.from, 0);
@@ -1015,11 +1053,258 @@ fn probes(ctx: &mut Ctx, s: &Session, l1: &[Mv]) {
 
 // ---------------------------------------------------------------- main loop
 
+enum Flow {
+    Continue,
+    Break,
+}
+
+struct LoopState {
+    s: Session,
+    cfg: Cfg,
+    /// C04 per-run table: position key -> (zobrist, board, occurrences)
+    seen: BTreeMap<PosKey, (u64, Board, u32)>,
+    three_fold: chess_engine::ThreeFold,
+    recent: Vec<(Board, Pos1)>,
+    other_text: String,
+    history_text: Vec<String>,
+}
+
+fn one_ply(ctx: &mut Ctx, st: &mut LoopState, ply: u32) -> Step<Flow> {
+        ctx.tape.mark();
+        if st.s.sut_driven {
+            // rule-undefined placement: no oracle, only trap detection
+            let ls = op(Op::Generate, || sut::legals_sorted(&st.s.board));
+            ctx.stats.bump("positions.sut-driven");
+            if ls.is_empty() {
+                return Ok(Flow::Break);
+            }
+            let m = *ctx.tape.pick(&ls);
+            let which = ctx.tape.choose(3);
+            match apply_checked(&st.s.board, m, which) {
+                Some(nb) => st.s.board = nb,
+                None => return Ok(Flow::Break),
+            }
+            let _ = op(Op::Print, || format!("{} {:?}", st.s.board, st.s.board));
+            let _ = op(Op::Status, || st.s.board.state());
+            if ctx.tape.choose(4) == 0 {
+                let k = ctx.tape.log_uniform(2000) as u64;
+                let _ = clock::search(&st.s.board, &st.three_fold, k, false);
+            }
+            if ctx.tape.choose(3) == 0 {
+                iter::consume_unchecked(ctx, &st.s)?;
+            }
+            return Ok(Flow::Continue);
+        }
+        let l1 = check_legals(ctx, &st.s)?;
+        let key = st.s.model.key();
+        {
+            let mut h = crate::tape::FNV0;
+            crate::tape::fnv(&mut h, &key.sq);
+            crate::tape::fnv(&mut h, &[key.stm, key.cr[0] as u8, key.cr[1] as u8, key.cr[2] as u8, key.cr[3] as u8, key.ep.map(|x| x + 1).unwrap_or(0)]);
+            ctx.stats.distinct.insert(h);
+            if st.s.model.in_check() || st.s.model.ep.is_some() || l1.iter().any(|&m| !matches!(st.s.model.kind(m), MoveKind::Quiet | MoveKind::Capture | MoveKind::DoubleStep)) {
+                ctx.stats.distinct_nontrivial.insert(h);
+            }
+        }
+        probes(ctx, &st.s, &l1);
+
+        // shadow replica after a restart must stay indistinguishable
+        if let Some((sh, _, _)) = &st.s.shadow {
+            let sh = *sh;
+            let feat = format!("last={:?};gave_check={};after-restart", st.s.last_kind, st.s.last_gave_check);
+            compare_replica(ctx, &sh, &st.s.board, "diverged-after-restart", &feat, &st.s.model.fen())?;
+        }
+
+        match ctx.mode {
+            Prop::C01 => mon_c01(ctx, &st.s, &l1, st.cfg.byz)?,
+            Prop::C02 => mon_c02(ctx, &st.s, &l1, st.cfg.byz)?,
+            Prop::C03 => mon_c03_status(ctx, &st.s, &l1)?,
+            Prop::C05 => mon_c05(ctx, &st.s)?,
+            Prop::C07 => {
+                mon_c01(ctx, &st.s, &l1, 1)?;
+                mon_c03_status(ctx, &st.s, &l1)?;
+                let _ = op(Op::Print, || format!("{:#?}", st.s.board));
+                let _ = op(Op::Hash, || {
+                    use std::hash::{Hash, Hasher};
+                    let mut h = std::collections::hash_map::DefaultHasher::new();
+                    st.s.board.hash(&mut h);
+                    h.finish()
+                });
+            }
+            _ => {}
+        }
+
+        // C04: hash as a function of the position
+        if matches!(ctx.mode, Prop::C04 | Prop::C07) {
+            let z = op(Op::Hash, || st.s.board.zobrist());
+            ctx.observe_u64(z);
+            let fen = st.s.model.fen();
+            let n_before = st.three_fold.get(&st.s.board);
+            let want_before = st.seen.get(&key).map(|e| e.2).unwrap_or(0);
+            if n_before as u32 != want_before.min(255) && want_before < 255 {
+                return ctx.fail(Prop::C04, "table.count", format!("want={want_before};got={n_before}"), format!("ThreeFold::get = {n_before}, reference occurrences {want_before}, for {fen}"));
+            }
+            if let Some((z0, b0, n)) = st.seen.get_mut(&key) {
+                ctx.stats.bump("c04.recurrences");
+                let b0c = *b0;
+                let z0c = *z0;
+                *n = n.wrapping_add(1);
+                if !op(Op::Hash, || b0c == st.s.board) {
+                    return ctx.fail(Prop::C04, "eq.equal-keys-unequal", String::new(), format!("two boards for the same position compare unequal: {fen}"));
+                }
+                if z0c != z {
+                    return ctx.fail(Prop::C04, "hash.equal-boards-differ", format!("last={:?}", st.s.last_kind), format!("same position, different hash ({z0c} vs {z}): {fen}"));
+                }
+            } else {
+                // boards with different keys must not compare equal
+                for (_, (_, b0, _)) in st.seen.iter().take(8) {
+                    if op(Op::Hash, || *b0 == st.s.board) {
+                        return ctx.fail(Prop::C04, "eq.unequal-keys-equal", String::new(), format!("boards for different positions compare equal: {fen}"));
+                    }
+                }
+                st.seen.insert(key.clone(), (z, st.s.board, 1));
+            }
+            if want_before < 250 {
+                op(Op::Hash, || st.three_fold.add(st.s.board));
+            }
+            // transposition fork every 4 plies: replay the last four moves in another order
+            st.recent.push((st.s.board, st.s.model.clone()));
+        }
+
+        // hosted scenarios
+        let mate_here = ctx.mode == Prop::C12 && !st.s.model.mating_moves().is_empty();
+        if mate_here {
+            ctx.stats.bump("c12.hosted-because-mate-exists");
+        }
+        if mate_here || (st.cfg.hosted_in > 0 && ctx.tape.choose(st.cfg.hosted_in) == 0) {
+            match ctx.mode {
+                Prop::C10 => iter::consume(ctx, &st.s, &l1)?,
+                Prop::C11 | Prop::C12 | Prop::C13 => clock::at_position(ctx, &st.s, &l1, &st.three_fold)?,
+                Prop::C07 => {
+                    if ctx.tape.choose(2) == 0 {
+                        iter::consume(ctx, &st.s, &l1)?
+                    } else {
+                        clock::at_position(ctx, &st.s, &l1, &st.three_fold)?
+                    }
+                }
+                _ => {}
+            }
+        }
+
+        // faults
+        if st.cfg.corrupt_in > 0 && ctx.tape.choose(st.cfg.corrupt_in) == 0 {
+            if ctx.tape.choose(4) == 0 {
+                corrupt_builder(ctx, &mut st.s)?;
+            } else {
+                corrupt(ctx, &mut st.s, &st.other_text)?;
+            }
+            if st.s.sut_driven {
+                return Ok(Flow::Continue);
+            }
+            if st.s.model.key() != key {
+                return Ok(Flow::Continue); // the session was re-rooted on an accepted record; start the ply over
+            }
+        }
+        if st.cfg.restart_in > 0 && ctx.tape.choose(st.cfg.restart_in) == 0 {
+            restart(ctx, &mut st.s)?;
+        }
+
+        if l1.is_empty() {
+            ctx.stats.bump("games.ended");
+            return Ok(Flow::Break);
+        }
+        // play
+        let m = choose_move(ctx, &st.s, &st.cfg, &l1);
+        let kind = st.s.model.kind(m);
+        let which = ctx.tape.choose(3);
+        let next_model = st.s.model.make(m);
+        if next_model.hmc > 60_000 || next_model.fmn > 60_000 {
+            return Ok(Flow::Break); // stay below the 16-bit limit (C02 quantifier); the overflow itself is C07/S-EXTREME
+        }
+        let feat = format!("{};op={}", move_features(&st.s.model, m), APPLY_NAMES[which as usize]);
+        let Some(nb) = apply_checked(&st.s.board, m, which) else {
+            return fail_any(ctx, &[(Prop::C02, "gate.refused-legal"), (Prop::C01, "is_legal.mismatch")], feat, format!("{} refused legal {} in {}", APPLY_NAMES[which as usize], m.text(), st.s.model.fen()));
+        };
+        ctx.stats.bump("plies");
+        ctx.stats.bump(&format!("kind.{kind:?}"));
+        // the shadow replica takes the same move
+        if let Some((sh, j, tag)) = st.s.shadow.take() {
+            match apply_checked(&sh, m, which) {
+                Some(nsh) => {
+                    if j > 1 {
+                        st.s.shadow = Some((nsh, j - 1, tag));
+                    } else {
+                        let feat = format!("last={kind:?};after-restart");
+                        compare_replica(ctx, &nsh, &nb, "diverged-after-restart", &feat, &next_model.fen())?;
+                    }
+                }
+                None => {
+                    return fail_any(ctx, &[(Prop::C03, "restart.legals")], "after-restart".into(), format!("replica refused {} in {}", m.text(), st.s.model.fen()));
+                }
+            }
+        }
+        st.s.prev_legal = l1;
+        st.s.last_move[st.s.model.stm as usize] = Some(m);
+        st.s.last_kind = Some(kind);
+        st.s.last_gave_check = next_model.in_check();
+        if let Some(h) = &mut st.s.from_standard {
+            h.push(m);
+        }
+        st.history_text.push(st.s.model.fen());
+        if st.history_text.len() > 2 {
+            st.other_text = st.history_text[ctx.tape.choose(st.history_text.len() as u32) as usize].clone();
+        }
+        st.s.model = next_model;
+        st.s.board = nb;
+        st.s.played = true;
+        // sync check: the successor as the public surface shows it
+        match op(Op::Print, || sut::read_board(&st.s.board)) {
+            Ok(got) => {
+                if let Some((comp, d)) = diff_component(&got, &st.s.model) {
+                    if ctx.claim == Prop::C03 && (comp == "halfmove" || comp == "fullmove") {
+                        // C03's status clause is about the true history ("100 half-moves without a
+                        // pawn move or capture"): keep following the model's own clock and let the
+                        // status and restart monitors judge what the board reports
+                        ctx.stats.bump("c03.continued-with-clock-desync");
+                    } else {
+                        return fail_any(ctx, &[(Prop::C02, &format!("succ.{comp}"))], feat, format!("after {} : {d}; now {}", m.text(), st.s.model.fen()));
+                    }
+                }
+            }
+            Err(e) => return fail_any(ctx, &[(Prop::C02, "succ.partition")], feat, format!("after {}: {e}", m.text())),
+        }
+
+        // C04 transposition fork
+        if matches!(ctx.mode, Prop::C04) && st.recent.len() >= 5 && ply % 2 == 1 {
+            fork(ctx, &st.s, &st.recent)?;
+        }
+        if st.recent.len() > 8 {
+            st.recent.remove(0);
+        }
+    Ok(Flow::Continue)
+}
+
 pub fn run(ctx: &mut Ctx) -> Step {
     let cfg = draw_cfg(ctx);
     ctx.stats.bump(&format!("gen.{}", gen::GEN_NAMES[cfg.gen as usize]));
     let start = gen::generate(&mut ctx.tape, cfg.gen);
     let fen0 = start.fen();
+    if cfg.gen == 10 {
+        // reach probes for the mate hunt
+        let mates = start.mating_moves();
+        for &m in &mates {
+            ctx.stats.bump(&format!("probe.mate-in-one-by.{:?}", start.kind(m)));
+        }
+        if !mates.is_empty() && start.legal_moves().len() == 1 {
+            ctx.stats.bump("probe.mate-in-one-by.only-legal-move");
+        }
+        if !mates.is_empty() && start.in_check() {
+            ctx.stats.bump("probe.mate-in-one-while-in-check");
+        }
+        if !mates.is_empty() && start.hmc == 99 {
+            ctx.stats.bump("probe.mate-in-one-at-clock-99");
+        }
+    }
     let board = match op(Op::Parse, || sut::to_board(&start)) {
         Ok(b) => b,
         Err(e) => {
@@ -1055,210 +1340,21 @@ pub fn run(ctx: &mut Ctx) -> Step {
         last_gave_check: false,
     };
     ctx.stats.sample(|| format!("start {fen0}"));
-    // C04 per-run table: position key -> (zobrist, board, occurrences)
-    let mut seen: BTreeMap<PosKey, (u64, Board, u32)> = BTreeMap::new();
-    let mut three_fold = chess_engine::ThreeFold::new();
-    let mut recent: Vec<(Board, Pos1)> = Vec::new(); // for transposition forks
-    let mut other_text = fen0.clone();
-    let mut history_text: Vec<String> = Vec::new();
-
-    for ply in 0..cfg.ply_limit {
-        ctx.tape.mark();
-        if s.sut_driven {
-            // rule-undefined placement: no oracle, only trap detection
-            let ls = op(Op::Generate, || sut::legals_sorted(&s.board));
-            ctx.stats.bump("positions.sut-driven");
-            if ls.is_empty() {
-                break;
+    let mut st = LoopState { s, cfg, seen: BTreeMap::new(), three_fold: chess_engine::ThreeFold::new(), recent: Vec::new(), other_text: fen0.clone(), history_text: Vec::new() };
+    for ply in 0..st.cfg.ply_limit {
+        match one_ply(ctx, &mut st, ply) {
+            Ok(Flow::Continue) => {}
+            Ok(Flow::Break) => break,
+            Err(Stop::Foreign(v)) if ctx.claim == Prop::C07 && !st.s.sut_driven => {
+                // C07 quantifies over every sequence of safe calls: a failed monitor of another
+                // property is no reason to stop; play on without oracles so that a trap which
+                // needs the wrong state can still manifest
+                ctx.stats.bump("c07.continued-after-foreign-violation");
+                ctx.stats.bump(&format!("foreign.{}.{}", v.prop.id(), v.class));
+                st.s.sut_driven = true;
+                st.s.shadow = None;
             }
-            let m = *ctx.tape.pick(&ls);
-            let which = ctx.tape.choose(3);
-            match apply_checked(&s.board, m, which) {
-                Some(nb) => s.board = nb,
-                None => break,
-            }
-            let _ = op(Op::Print, || format!("{} {:?}", s.board, s.board));
-            let _ = op(Op::Status, || s.board.state());
-            if ctx.tape.choose(4) == 0 {
-                let k = ctx.tape.log_uniform(2000) as u64;
-                let _ = clock::search(&s.board, &three_fold, k, false);
-            }
-            continue;
-        }
-        let l1 = check_legals(ctx, &s)?;
-        let key = s.model.key();
-        {
-            let mut h = crate::tape::FNV0;
-            crate::tape::fnv(&mut h, &key.sq);
-            crate::tape::fnv(&mut h, &[key.stm, key.cr[0] as u8, key.cr[1] as u8, key.cr[2] as u8, key.cr[3] as u8, key.ep.map(|x| x + 1).unwrap_or(0)]);
-            ctx.stats.distinct.insert(h);
-            if s.model.in_check() || s.model.ep.is_some() || l1.iter().any(|&m| !matches!(s.model.kind(m), MoveKind::Quiet | MoveKind::Capture | MoveKind::DoubleStep)) {
-                ctx.stats.distinct_nontrivial.insert(h);
-            }
-        }
-        probes(ctx, &s, &l1);
-
-        // shadow replica after a restart must stay indistinguishable
-        if let Some((sh, _, _)) = &s.shadow {
-            let sh = *sh;
-            let feat = format!("last={:?};gave_check={};after-restart", s.last_kind, s.last_gave_check);
-            compare_replica(ctx, &sh, &s.board, "diverged-after-restart", &feat, &s.model.fen())?;
-        }
-
-        match ctx.mode {
-            Prop::C01 => mon_c01(ctx, &s, &l1, cfg.byz)?,
-            Prop::C02 => mon_c02(ctx, &s, &l1, cfg.byz)?,
-            Prop::C03 => mon_c03_status(ctx, &s, &l1)?,
-            Prop::C05 => mon_c05(ctx, &s)?,
-            Prop::C07 => {
-                mon_c01(ctx, &s, &l1, 1)?;
-                mon_c03_status(ctx, &s, &l1)?;
-                let _ = op(Op::Print, || format!("{:#?}", s.board));
-                let _ = op(Op::Hash, || {
-                    use std::hash::{Hash, Hasher};
-                    let mut h = std::collections::hash_map::DefaultHasher::new();
-                    s.board.hash(&mut h);
-                    h.finish()
-                });
-            }
-            _ => {}
-        }
-
-        // C04: hash as a function of the position
-        if matches!(ctx.mode, Prop::C04 | Prop::C07) {
-            let z = op(Op::Hash, || s.board.zobrist());
-            ctx.observe_u64(z);
-            let fen = s.model.fen();
-            let n_before = three_fold.get(&s.board);
-            let want_before = seen.get(&key).map(|e| e.2).unwrap_or(0);
-            if n_before as u32 != want_before.min(255) && want_before < 255 {
-                return ctx.fail(Prop::C04, "table.count", format!("want={want_before};got={n_before}"), format!("ThreeFold::get = {n_before}, reference occurrences {want_before}, for {fen}"));
-            }
-            if let Some((z0, b0, n)) = seen.get_mut(&key) {
-                ctx.stats.bump("c04.recurrences");
-                let b0c = *b0;
-                let z0c = *z0;
-                *n = n.wrapping_add(1);
-                if !op(Op::Hash, || b0c == s.board) {
-                    return ctx.fail(Prop::C04, "eq.equal-keys-unequal", String::new(), format!("two boards for the same position compare unequal: {fen}"));
-                }
-                if z0c != z {
-                    return ctx.fail(Prop::C04, "hash.equal-boards-differ", format!("last={:?}", s.last_kind), format!("same position, different hash ({z0c} vs {z}): {fen}"));
-                }
-            } else {
-                // boards with different keys must not compare equal
-                for (_, (_, b0, _)) in seen.iter().take(8) {
-                    if op(Op::Hash, || *b0 == s.board) {
-                        return ctx.fail(Prop::C04, "eq.unequal-keys-equal", String::new(), format!("boards for different positions compare equal: {fen}"));
-                    }
-                }
-                seen.insert(key.clone(), (z, s.board, 1));
-            }
-            if want_before < 250 {
-                op(Op::Hash, || three_fold.add(s.board));
-            }
-            // transposition fork every 4 plies: replay the last four moves in another order
-            recent.push((s.board, s.model.clone()));
-        }
-
-        // hosted scenarios
-        if cfg.hosted_in > 0 && ctx.tape.choose(cfg.hosted_in) == 0 {
-            match ctx.mode {
-                Prop::C10 => iter::consume(ctx, &s, &l1)?,
-                Prop::C11 | Prop::C12 | Prop::C13 => clock::at_position(ctx, &s, &l1, &three_fold)?,
-                Prop::C07 => {
-                    if ctx.tape.choose(2) == 0 {
-                        iter::consume(ctx, &s, &l1)?
-                    } else {
-                        clock::at_position(ctx, &s, &l1, &three_fold)?
-                    }
-                }
-                _ => {}
-            }
-        }
-
-        // faults
-        if cfg.corrupt_in > 0 && ctx.tape.choose(cfg.corrupt_in) == 0 {
-            if ctx.tape.choose(4) == 0 {
-                corrupt_builder(ctx, &mut s)?;
-            } else {
-                corrupt(ctx, &mut s, &other_text)?;
-            }
-            if s.sut_driven {
-                continue;
-            }
-            if s.model.key() != key {
-                continue; // the session was re-rooted on an accepted record; start the ply over
-            }
-        }
-        if cfg.restart_in > 0 && ctx.tape.choose(cfg.restart_in) == 0 {
-            restart(ctx, &mut s)?;
-        }
-
-        if l1.is_empty() {
-            ctx.stats.bump("games.ended");
-            break;
-        }
-        // play
-        let m = choose_move(ctx, &s, &cfg, &l1);
-        let kind = s.model.kind(m);
-        let which = ctx.tape.choose(3);
-        let next_model = s.model.make(m);
-        if next_model.hmc > 60_000 || next_model.fmn > 60_000 {
-            break; // stay below the 16-bit limit (C02 quantifier); the overflow itself is C07/S-EXTREME
-        }
-        let feat = format!("{};op={}", move_features(&s.model, m), APPLY_NAMES[which as usize]);
-        let Some(nb) = apply_checked(&s.board, m, which) else {
-            return fail_any(ctx, &[(Prop::C02, "gate.refused-legal"), (Prop::C01, "is_legal.mismatch")], feat, format!("{} refused legal {} in {}", APPLY_NAMES[which as usize], m.text(), s.model.fen()));
-        };
-        ctx.stats.bump("plies");
-        ctx.stats.bump(&format!("kind.{kind:?}"));
-        // the shadow replica takes the same move
-        if let Some((sh, j, tag)) = s.shadow.take() {
-            match apply_checked(&sh, m, which) {
-                Some(nsh) => {
-                    if j > 1 {
-                        s.shadow = Some((nsh, j - 1, tag));
-                    } else {
-                        let feat = format!("last={kind:?};after-restart");
-                        compare_replica(ctx, &nsh, &nb, "diverged-after-restart", &feat, &next_model.fen())?;
-                    }
-                }
-                None => {
-                    return fail_any(ctx, &[(Prop::C03, "restart.legals")], "after-restart".into(), format!("replica refused {} in {}", m.text(), s.model.fen()));
-                }
-            }
-        }
-        s.prev_legal = l1;
-        s.last_move[s.model.stm as usize] = Some(m);
-        s.last_kind = Some(kind);
-        s.last_gave_check = next_model.in_check();
-        if let Some(h) = &mut s.from_standard {
-            h.push(m);
-        }
-        history_text.push(s.model.fen());
-        if history_text.len() > 2 {
-            other_text = history_text[ctx.tape.choose(history_text.len() as u32) as usize].clone();
-        }
-        s.model = next_model;
-        s.board = nb;
-        s.played = true;
-        // sync check: the successor as the public surface shows it
-        match op(Op::Print, || sut::read_board(&s.board)) {
-            Ok(got) => {
-                if let Some((comp, d)) = diff_component(&got, &s.model) {
-                    return fail_any(ctx, &[(Prop::C02, &format!("succ.{comp}"))], feat, format!("after {} : {d}; now {}", m.text(), s.model.fen()));
-                }
-            }
-            Err(e) => return fail_any(ctx, &[(Prop::C02, "succ.partition")], feat, format!("after {}: {e}", m.text())),
-        }
-
-        // C04 transposition fork
-        if matches!(ctx.mode, Prop::C04) && recent.len() >= 5 && ply % 2 == 1 {
-            fork(ctx, &s, &recent)?;
-        }
-        if recent.len() > 8 {
-            recent.remove(0);
+            Err(e) => return Err(e),
         }
     }
     ctx.stats.bump("runs.completed");
